@@ -186,8 +186,21 @@ func (dec *ttlvReader) validate() error {
 	if len(dec.buf[8:]) < dec.paddedLen() {
 		return Errorf("TTLV value too short. Got %d bytes, expected %d", len(dec.buf[8:]), dec.paddedLen())
 	}
-	if ty := dec.Type(); ty > TypeInterval || ty == 0 {
+	ty := dec.Type()
+	if ty > TypeInterval || ty == 0 {
 		return Errorf("invalid TTLV type %s", ty)
+	}
+	// Fixed-width types must carry exactly their specified length, otherwise
+	// reading their value would run past the declared extent.
+	switch ty {
+	case TypeInteger, TypeEnumeration, TypeInterval:
+		if dec.len() != 4 {
+			return Errorf("invalid TTLV length %d for type %s", dec.len(), ty)
+		}
+	case TypeLongInteger, TypeBoolean, TypeDateTime:
+		if dec.len() != 8 {
+			return Errorf("invalid TTLV length %d for type %s", dec.len(), ty)
+		}
 	}
 	// if th := (dec.Tag() >> 16) & 0xFF; th != 0x42 && th != 0x54 {
 	// 	return Errorf("invalid TTLV tag %X", dec.Tag())
